@@ -18,7 +18,7 @@ def main():
             ok = m["copies"] and all(esafe(rec, m, e) for e in m["effects"])
             (safe_l if ok else unsafe_l).append((rec["cls"], m["name"]))
             ueffs += [(rec["cls"], m["name"], e) for e in m["effects"] if not esafe(rec, m, e)]
-    core = [p for p in safe_l if p[0].split(".")[0] in ("terms", "queries", "dialects") or p[0] == "functions.DistinctOptionFunction"]
+    core = [p for p in safe_l if p[0].split(".")[0] in ("terms", "queries", "dialects", "array", "type_conversion") or p[0] == "functions.DistinctOptionFunction"]
     path = lib.VERIF + "/coq/lemmas/HeapExpected.v"
     old = open(path).read()
     oldpairs = set(re.findall(r'\("([\w.]+)", "([\w>]+)"\)', old.split("Definition expected_unsafe ")[0]))
